@@ -54,7 +54,9 @@ fn eval(vm: &mut Vm) -> Result<VCell, Error> {
     // The expression is a top-level form: a begin splices as in compile_runnable.
     let forms = vm.splice_body(&Cell::new_list(vec![expr.clone()]))?;
     if forms.is_empty() {
-        vm.compile(&mut lambda, true, &expr)?;
+        lambda.emit(OpCode::MovImmediate);
+        lambda.emit(VCell::Void);
+        lambda.emit(VCell::Acc);
     }
     for (idx, form) in forms.iter().enumerate() {
         vm.compile(&mut lambda, idx + 1 == forms.len(), form)?;
